@@ -499,6 +499,18 @@ theorem c16_McStateExtra_roundtrip : Lawful mcStateExtra := by
   unfold mcStateExtra
   infer_instance
 
+/-- `ShardFeeCreated` -/
+@[instance]
+theorem c16_ShardFeeCreated_roundtrip : Lawful shardFeeCreated := by unfold shardFeeCreated; infer_instance
+
+/-- `ShardFees` -/
+@[instance]
+theorem c16_ShardFees_roundtrip : Lawful shardFees := by unfold shardFees; infer_instance
+
+/-- `CryptoSignaturePair` (simple ed25519 signatures) -/
+@[instance]
+theorem c16_CryptoSignaturePair_roundtrip : Lawful cryptoSignaturePair := by unfold cryptoSignaturePair; infer_instance
+
 /-- `McBlockExtra`: decoding what the spec encoder wrote for ANY value, followed by ANY continuation bits and refs, returns that
     value (every field, unsigned stays unsigned) and leaves exactly the continuation. -/
 @[instance]
